@@ -570,6 +570,11 @@ func (q *TaskQueue) waitForTask(sleepDelay time.Duration) task.Task {
 			return nil
 		case <-checkTicker.C:
 			verifhook.Point("q.wait.tick", q.Name, q.ctx.Err() != nil)
+			// select chooses randomly among ready cases: when the queue was
+			// stopped on the very tick the delay expires, do not return a task.
+			if q.ctx.Err() != nil {
+				return nil
+			}
 			// Check and update waitUntil.
 			elapsed := time.Since(waitBegin)
 
